@@ -1,14 +1,53 @@
-(** C19 - everything the client sends is a well-formed RFB client message (placeholder, grows) *)
-From Coq Require Import ZArith List Bool.
-From VD Require Import Base.Bytes Model.ClientMsgs Spec.C2S Proofs.C2SP.
+(** C19 - Everything the client sends is a well-formed RFB client message.
+    Only statements; the proofs live in Proofs/. *)
+From Coq Require Import ZArith List Bool Lia.
+From VD Require Import Base.Bytes Base.PixFmt Model.ClientMsgs Model.Pointer Model.ClientOps Spec.C2S.
+From VD Require Import Proofs.C2SP Proofs.PointerP Proofs.ClientOpsP.
 Import ListNotations.
 Open Scope Z_scope.
 
-Theorem C19_keyEvent : forall key down,
-  0 <= down <= 255 -> 0 <= key <= 4294967295 ->
-  exists w, keyEvent key down = Some w /\ parse_c2s w = Some [MKeyEvent down key].
+(** For every finite sequence of library operations whose arguments are in range
+    ([ops_spec], Proofs/ClientOpsP.v: coordinates/sizes 0..65535, keysyms < 2^32, buttons 1..8,
+    Latin-1 text, any list of 32-bit encodings, any pixel format with in-range fields), no
+    operation raises, and the concatenation of everything written parses, by the RFC 6143 §7.5
+    parser, into exactly the messages the operations stand for, in order. *)
+Theorem C19_stream_parses : forall s ops s' ms,
+  ops_spec s ops s' ms ->
+  exists ws b, run_ops s ops = (s', ws) /\ cat_some ws = Some b /\ parse_c2s b = Some ms.
 Proof.
-  intros key down Hd Hk. destruct (keyEvent_parses key down Hd Hk) as (w & E & P).
-  exists w. split; [exact E|apply Parses_sound; exact P].
+  intros s ops s' ms H. destruct (run_ops_spec s ops s' ms H) as (ws & b & E & C & P).
+  exists ws, b. repeat split; try assumption. apply Parses_sound; exact P.
 Qed.
-Print Assumptions C19_keyEvent.
+Print Assumptions C19_stream_parses.
+
+(** Pasted text arrives as its Latin-1 bytes behind the exact 32-bit length. *)
+Theorem C19_paste_latin1 : forall t,
+  Forall (fun c => 0 <= c < 256) t -> len t < 4294967296 ->
+  exists w, clientCutText t = Some w /\ parse_c2s w = Some [MClientCutText t].
+Proof.
+  intros t H L. destruct (cutText_parses t H L) as (w & E & P).
+  exists w; split; [exact E|apply Parses_sound; exact P].
+Qed.
+Print Assumptions C19_paste_latin1.
+
+(** Key and pointer events are exactly 8 and 6 bytes with the RFC layout. *)
+Theorem C19_fixed_layouts : forall key down x y mask,
+  0 <= down <= 255 -> 0 <= key <= 4294967295 -> 0 <= mask <= 255 -> 0 <= x <= 65535 -> 0 <= y <= 65535 ->
+  keyEvent key down = Some ([4; down; 0; 0] ++ be_enc 4 key) /\
+  pointerEvent x y mask = Some ([5; mask] ++ be_enc 2 x ++ be_enc 2 y).
+Proof. exact layouts_fixed. Qed.
+Print Assumptions C19_fixed_layouts.
+
+(** non-vacuity: a concrete mixed history meets the hypotheses *)
+Example C19_nonvacuous :
+  let s := mk_cstate ptr0 640 480 false false in
+  exists s' ms, ops_spec s [OPaste [104; 105; 233]; OMove 3 4; ODown 1; ORefresh 0; OSetEnc [0; -239]] s' ms.
+Proof.
+  cbv zeta. do 2 eexists.
+  econstructor; [apply S_paste; [repeat constructor; lia|cbn; lia]|].
+  econstructor; [apply (S_move _ ss0); [apply Rel0|lia|lia]|].
+  econstructor; [apply (S_down _ (mk_ss 3 4 none_held)); [unfold Rel; cbn; repeat split; lia|lia]|].
+  econstructor; [apply S_refresh; unfold rng; cbn; lia|].
+  econstructor; [apply S_setenc; [repeat constructor; unfold rng; lia|cbn; lia]|].
+  constructor.
+Qed.
